@@ -116,6 +116,16 @@ func readAtLeast(s *Stream, n int64, p *unsafe.Pointer) bool {
 	return true
 }
 
+func validateHexDigits(s *Stream, from, to int64) error {
+	for i := from; i < to; i++ {
+		c := s.buf[i]
+		if !(('0' <= c && c <= '9') || ('a' <= c && c <= 'f') || ('A' <= c && c <= 'F')) {
+			return errors.ErrSyntax(fmt.Sprintf("json: invalid character %c in \\u hexadecimal character escape", c), s.offset+i)
+		}
+	}
+	return nil
+}
+
 func decodeUnicodeRune(s *Stream, p unsafe.Pointer) (rune, int64, unsafe.Pointer, error) {
 	const defaultOffset = 5
 	const surrogateOffset = 11
@@ -124,6 +134,9 @@ func decodeUnicodeRune(s *Stream, p unsafe.Pointer) (rune, int64, unsafe.Pointer
 		return rune(0), 0, nil, errors.ErrInvalidCharacter(s.char(), "escaped string", s.totalOffset())
 	}
 
+	if err := validateHexDigits(s, s.cursor+1, s.cursor+defaultOffset); err != nil {
+		return rune(0), 0, nil, err
+	}
 	r := unicodeToRune(s.buf[s.cursor+1 : s.cursor+defaultOffset])
 	if utf16.IsSurrogate(r) {
 		if !readAtLeast(s, surrogateOffset, &p) {
@@ -131,6 +144,9 @@ func decodeUnicodeRune(s *Stream, p unsafe.Pointer) (rune, int64, unsafe.Pointer
 		}
 		if s.buf[s.cursor+defaultOffset] != '\\' || s.buf[s.cursor+defaultOffset+1] != 'u' {
 			return unicode.ReplacementChar, defaultOffset, p, nil
+		}
+		if err := validateHexDigits(s, s.cursor+defaultOffset+2, s.cursor+surrogateOffset); err != nil {
+			return rune(0), 0, nil, err
 		}
 		r2 := unicodeToRune(s.buf[s.cursor+defaultOffset+2 : s.cursor+surrogateOffset])
 		if r := utf16.DecodeRune(r, r2); r != unicode.ReplacementChar {
